@@ -5,7 +5,7 @@
      Bin  : ECOR, reader/writer move fragment-order bytes (none, gzip, bzip2, lzma; sie for its data)
      Text : no ECOR, reader yields / writer takes native values.                *)
 From Coq Require Import ZArith List Bool Lia.
-From GD Require Import C04.Bytes.
+From GD Require Import C04.Bytes Gen.ChangeLoop.
 Import ListNotations.
 
 Inductive codec := Bin | Text.
@@ -81,6 +81,14 @@ Definition spf_convert_chunk {A} (dflt : A) (o n : nat) (chunk : list A) : list 
 (* the copy loop of the RAW branch of _GD_Change: nf = GD_BUFFER_SIZE / max(sizes) / max(spfs) frames per pass;
    a pass that reads nothing ends the loop *)
 Definition frames_per_pass (buf size o n : nat) : nat := buf / size / Nat.max o n.
+
+(* repo commit 9ccf3f7: when one frame does not fit the buffer (nf = 0), one frame per pass in buffers sized for it;
+   whether the source has that statement is read by translate/tr_changeloop.py (Gen/ChangeLoop.v) *)
+Definition frames_per_pass_v (min_one : bool) (buf size o n : nat) : nat :=
+  let nf := frames_per_pass buf size o n in if min_one then Nat.max 1 nf else nf.
+
+(* the current code *)
+Definition frames_per_pass_cur := frames_per_pass_v min_one_frame_per_pass.
 
 Fixpoint change_loop {A} (dflt : A) (fuel per_pass o n : nat) (file : list A) : list A :=
   match fuel with
